@@ -340,7 +340,7 @@ func (r *replicator) generateEmitter(bus event.Bus) error {
 }
 
 func (r *replicator) waitForProcessSlot(ctx context.Context, hash cid.Cid) (e processItem, err error) {
-	verifhook.Point("repl.beforeSlot", nil)
+	verifhook.Point("repl.beforeSlot", hash)
 
 	if err := r.sem.Acquire(ctx, 1); err != nil {
 		return nil, fmt.Errorf("failed to acquire process slot: %w", err)
